@@ -1935,6 +1935,25 @@ fn main() {
                 let ok = matches!((&a, &b), (Ok(x), Ok(y)) if *x == want && *y == want);
                 format!("{{\"roundtrips\":{},\"slice_ok\":{},\"stream_ok\":{}}}", ok, a.is_ok(), b.is_ok())
             }
+            // spec_defaults: bytes written by hand from the specification: a header whose priority is elided decodes to 4, a
+            //   header with priority 0 is written with an explicit 0; an open without max-frame-size / channel-max decodes to
+            //   4294967295 / 65535
+            "spec_defaults" => {
+                use fe2o3_amqp_types::messaging::{Header, Priority};
+                use fe2o3_amqp_types::performatives::Open;
+                // header { durable = true } : list8 size 2 count 1 { true }
+                let h: Result<Header, _> = serde_amqp::from_slice(&[0x00, 0x53, 0x70, 0xc0, 0x02, 0x01, 0x41]);
+                let elided_is_4 = matches!(&h, Ok(x) if x.priority == Priority(4));
+                let mut hdr = Header::default();
+                hdr.priority = Priority(0);
+                let bytes = serde_amqp::to_vec(&hdr).unwrap_or_default();
+                // the priority field (second) must be present and 0: ... 0x42|0x40 (durable false or null), 0x50 0x00
+                let zero_written = bytes.windows(2).any(|w| w == [0x50, 0x00]);
+                // open { container-id "c" } : list8 size 4 count 1 { str8 "c" }
+                let o: Result<Open, _> = serde_amqp::from_slice(&[0x00, 0x53, 0x10, 0xc0, 0x04, 0x01, 0xa1, 0x01, b'c']);
+                let open_defaults = matches!(&o, Ok(x) if x.max_frame_size.0 == u32::MAX && x.channel_max.0 == u16::MAX);
+                format!("{{\"as_specified\":{},\"elided_priority_is_4\":{},\"priority_0_is_written\":{},\"open_defaults\":{}}}", elided_is_4 && zero_written && open_defaults, elided_is_4, zero_written, open_defaults)
+            }
             "framedec" => {
                 use bytes::BytesMut;
                 use tokio_util::codec::Decoder;
